@@ -236,30 +236,34 @@ Definition macro_check (mn : string) (n : nat) : res (nat * nat) :=
   else if mn =? "arb" then chk (n =? 30)%nat 6%nat
   else Err ENotImplemented.
 
-Definition elem_check (mn : string) (n : nat) : res (nat * nat) :=
+(* arity level of every elementary mnemonic; [two] says whether a cone comes
+   with a non-zero nappe selector (then TRIPOLI-4 gets cone + auxiliary plane) *)
+Definition elem_check (mn : string) (n : nat) (two5 two3 two8 twoxz : bool) : res (nat * nat) :=
   let one := Ok (1%nat, 1%nat) in
+  let cnt (b : bool) := Ok (1%nat, if b then 2%nat else 1%nat) in
   if mn =? "p" then (if (n =? 4)%nat || (n =? 9)%nat then one else Err EValue)
   else if mem mn ["px";"py";"pz";"so";"cx";"cy";"cz"] then one
   else if mn =? "s" then (if (n =? 4)%nat then one else Err EType)
   else if mem mn ["sx";"sy";"sz"] then (if (2 <=? n)%nat then one else Err EIndex)
   else if mem mn ["c/x";"c/y";"c/z"] then (if (3 <=? n)%nat then one else Err EIndex)
   else if mem mn ["k/x";"k/y";"k/z"] then
-    (if (4 <=? n)%nat then Ok (1%nat, if (n =? 5)%nat then 2%nat else 1%nat) else Err EIndex)
+    (if (4 <=? n)%nat then cnt ((n =? 5)%nat && two5) else Err EIndex)
   else if mem mn ["kx";"ky";"kz"] then
-    (if (2 <=? n)%nat then Ok (1%nat, if (n =? 3)%nat then 2%nat else 1%nat) else Err EIndex)
+    (if (2 <=? n)%nat then cnt ((n =? 3)%nat && two3) else Err EIndex)
   else if mn =? "sq" then (if (10 <=? n)%nat then one else Err EIndex)
   else if mn =? "gq" then one
   else if mem mn ["tx";"ty";"tz"] then (if (n =? 5)%nat || (n =? 6)%nat then one else Err EValue)
-  else if mem mn ["x";"z"] then (if (n =? 2)%nat || (n =? 4)%nat then one else Err ENotImplemented)
+  else if mem mn ["x";"z"] then
+    (if (n =? 2)%nat then one else if (n =? 4)%nat then cnt twoxz else Err ENotImplemented)
   else if mem mn ["y";"t"] then Err EKey            (* no mcnp2cad entry *)
   else if mn =? "c" then (if (n =? 7)%nat then one else Err EType)
-  else if mn =? "k" then (if (7 <=? n)%nat && (n <=? 9)%nat then one else Err EType)
+  else if mn =? "k" then (if (7 <=? n)%nat && (n <=? 9)%nat then cnt ((8 <=? n)%nat && two8) else Err EType)
   else Err EValue.
 
-Definition surface_check (mn : string) (n : nat) : res (nat * nat) :=
+Definition surface_check_n (mn : string) (n : nat) (two5 two3 two8 twoxz : bool) : res (nat * nat) :=
   if (n =? 0)%nat then Err EUnmodelled            (* the card regex needs a parameter *)
   else if mem mn macros then macro_check mn n
-  else if mem mn elementary then elem_check mn n
+  else if mem mn elementary then elem_check mn n two5 two3 two8 twoxz
   else Err EValue.                                (* string_to_enum *)
 
 (* pot_expand_surfs: facet k of a surface with [nt4] T4 sub-surfaces.
@@ -303,6 +307,22 @@ Definition material_check (toks : list string) : res unit :=
 (* ====================================================================== *)
 Section Num.
   Context {T : Type} (S : Scalar T).
+
+  (* --- surfaces: the values that decide how many TRIPOLI-4 surfaces a cone
+         becomes (forcad.k_x/kx/cone: nappe = last entry; convert_cone: a nappe
+         equal to 0 counts as none; forcad.xx/zz: plane, cylinder or one-nappe
+         cone) --- *)
+  Definition nonzero_at (i : nat) (p : list T) : bool :=
+    match nth_error p i with Some v => negb (seqb S v (s0 S)) | None => false end.
+  Definition same_at (i j : nat) (p : list T) : bool :=
+    match nth_error p i, nth_error p j with
+    | Some a, Some b => seqb S a b
+    | _, _ => false
+    end.
+  Definition surface_check (mn : string) (p : list T) : res (nat * nat) :=
+    surface_check_n mn (List.length p)
+      (nonzero_at 4 p) (nonzero_at 2 p) (nonzero_at 7 p)
+      (negb (same_at 0 2 p) && negb (same_at 1 3 p)).
 
   (* --- Transformation.normalize_transform, arity level: length of the
          list it returns.  13 entries: the last one must equal 1. --- *)
@@ -630,7 +650,7 @@ Section Num.
   (* ==================================================================== *)
   (* 7. The whole run, in the order of main.conversion                     *)
   (* ==================================================================== *)
-  Record surfc := mkSurf { sf_id : Z; sf_tr : option Z; sf_mn : string; sf_n : nat }.
+  Record surfc := mkSurf { sf_id : Z; sf_tr : option Z; sf_mn : string; sf_params : list T }.
   Record lit := mkLit { l_surf : Z; l_facet : option nat }.
   Record cellc := mkCellc { c_id : Z; c_lits : list lit; c_compl : list Z; c_toks : list tok }.
   Record deckm := mkDeck {
@@ -650,7 +670,7 @@ Section Num.
     match l with
     | [] => Ok acc
     | s :: r =>
-        do cnt <- surface_check (sf_mn s) (sf_n s);
+        do cnt <- surface_check (sf_mn s) (sf_params s);
         do tt <- match sf_tr s with
                 | None => Ok tt
                 | Some id => match lookup id trs with
